@@ -3,6 +3,7 @@ package text
 import (
 	"encoding/hex"
 	"strings"
+	"sync"
 	"unicode"
 
 	"github.com/rivo/uniseg"
@@ -31,9 +32,19 @@ func segment(t string) []string {
 	return out
 }
 
+// gCache memoises mkG (pure function of the source text).
+var gCache sync.Map
+
 func mkG(src string) gstr {
+	if g, ok := gCache.Load(src); ok {
+		return g.(gstr)
+	}
 	t := norm.NFC.String(src)
-	return gstr{text: t, cl: segment(t)}
+	g := gstr{text: t, cl: segment(t)}
+	if len(src) <= 64 {
+		gCache.Store(src, g)
+	}
+	return g
 }
 
 func (g gstr) length() int { return len(g.cl) }
